@@ -293,7 +293,7 @@ impl Prop for C03 {
     }
 
     fn cases(tier: Tier) -> u64 {
-        tier.pick(12_000, 400_000)
+        tier.pick(60_000, 800_000)
     }
 
     fn enumerate(_tier: Tier) -> Vec<Case> {
